@@ -21,6 +21,10 @@ def oracle(toks, line):
         return line == "ok " + want_rep(toks[1], int(toks[2]), int(toks[3]))
     if toks[0] == "repblk":
         return " oracle_bad=0" in line
+    if toks[0] == "nrep":
+        rep = int(toks[2]) % (1 << 64)
+        one = "null" if rep == 0 else f"inN:{rep % BLK}"
+        return line == ("ok " + (one if toks[1] != "arrel" else one + "," + one))
     if toks[0] == "malf":
         # allocation with an untrusted allocator behind a backend that does not clamp: null, or first AND last element inside
         sb, ty, v, n = int(toks[1]), toks[2], int(toks[3]) % (1 << 32), int(toks[4]) % (1 << 32)
@@ -77,7 +81,7 @@ def gen_chain(rng, sb, depth):
     tag = rng.choice(["i", "c", "pp", "st"])
     toks = ["chain", str(sb), start, tag]
     for _ in range(depth):
-        menu = ["+", "-", "[", "ci", "cc", "cpp", "cst", "opq", "ad"]
+        menu = ["+", "-", "[", "ci", "cc", "cpp", "cst", "opq", "ad", rng.choice(["pi", "pd", "ip", "dp"])]
         if tag == "pp":
             menu += ["ld", "ld"]
         if tag == "st":
@@ -161,6 +165,13 @@ def run(chk):
     nchains = 30000 if thorough else 5000
     for i in range(nchains):
         ops.append(gen_chain(rng, i % 2, rng.randrange(1, 13 if thorough else 7)))
+    # a backend whose pointer representation is a pointer type (void*, as in the bundled backends) but which has a real region:
+    # every 64-bit pattern in every position still goes through the backend's translation
+    pats = {0, 1, 8, BLK - 1, BLK, BLK + 8, 0xdeadbeef, (1 << 32), (1 << 47) - 8, (1 << 64) - 1, (1 << 64) - BLK, 0x6a0000000000, 0x6a0000000000 + 3 * 0x400030000 + 64,
+            0x7ffc00001000, 0x555555554000} | {rng.getrandbits(64) for _ in range(60 if thorough else 12)} | {rng.getrandbits(17) for _ in range(20 if thorough else 6)}
+    for pos in ("result", "cbarg", "cell", "arrel"):
+        for r in sorted(pats):
+            ops.append(f"nrep {pos} {r}")
     # allocation: the allocator inside the sandbox returns anything (inside, straddling the end, wholly outside, far outside)
     for sb in (0, 1):
         for ty, size in (("char", 1), ("int", 4), ("llong", 8), ("st", 24)):
@@ -170,7 +181,7 @@ def run(chk):
                 for n in (1, 2, 3, 16, BLK // size, BLK // size + 1, 0) + ((rng.randrange(1, 70000),) if thorough else ()):
                     ops.append(f"malf {sb} {ty} {v} {n}")
     # regression corpus: the witnesses of the findings run first on every seed
-    corpus = ["chain 0 null i [5", "chain 0 65532 c cst afp", "chain 0 null st afl", "chain 1 null pp [3 ld", "chain 0 65520 i ae4", "chain 0 65520 i ae3 +1", "chain 1 16 c ae5"]
+    corpus = ["chain 0 65532 i pi", "chain 0 65535 c ip", "chain 1 0 c pd", "chain 1 0 st dp", "chain 0 null i pi", "chain 0 null i [5", "chain 0 65532 c cst afp", "chain 0 null st afl", "chain 1 null pp [3 ld", "chain 0 65520 i ae4", "chain 0 65520 i ae3 +1", "chain 1 16 c ae5"]
     ops = corpus + list(dict.fromkeys(ops))
     res = core.differential(chk, ops, binp, oracle, signature=signature, label="pointer derivations")
     blocks = sum(8192 for o in ops if o.startswith("repblk"))
@@ -178,7 +189,7 @@ def run(chk):
     outcomes = {}
     for o, a in zip(ops, res["impl"]):
         if o.startswith("chain"):
-            k = "null" if a == "ok null" else a.split()[0] if not a.startswith("ok") else ("inside" if a.startswith("ok in") else "outside")
+            k = "null" if a == "ok null" else (a.split() or ["<no answer>"])[0] if not a.startswith("ok") else ("inside" if a.startswith("ok in") else "outside")
             outcomes[k] = outcomes.get(k, 0) + 1
     chk.cov["input_distribution"] = {"chain_outcomes": outcomes, "representations_enumerated_in_blocks": blocks}
     chk.cov["distinct_nontrivial"] = len(ops) + blocks
